@@ -120,6 +120,19 @@ impl<R: Read> Reader<R> {
     pub fn where_am_i(&self) -> Location {
         self.location.clone()
     }
+
+    /// The boundary between two top level values. The look-ahead byte is already
+    /// counted in the location, so when it belongs to the next token (i.e. it is not
+    /// a whitespace) it must be excluded.
+    pub fn where_is_value_boundary(&self) -> Location {
+        let mut location = self.location.clone();
+        if let Some(ch) = self.current_byte {
+            if !matches!(ch, b' ' | b'\n' | b'\t' | b'\r') && location.char_number > 1 {
+                location.char_number -= 1;
+            }
+        }
+        location
+    }
 }
 
 impl Display for Location {
